@@ -262,6 +262,13 @@ def call_builtin(ip, st, name, pos, kws, node):
     reg = ip.reg
     if name == "len":
         v = pos[0]
+        if isinstance(v, (Num, Bool, NoneV)) and len(pos) == 1 and not ip.spec_mode:
+            # len(<number>) / len(None): TypeError (object of type 'float' has no len()), as for iter() below
+            if ip.may_catch(st, "TypeError"):
+                ip.raise_(st, "TypeError")
+            else:
+                ip.emit("safety", "len() of a number (TypeError)", st, FALSE)
+            return []
         if isinstance(v, Ref):
             cell = st.heap[v.cid]
             if type(cell).__name__ == "PySetCell" and cell.items != "unknown":
@@ -482,6 +489,13 @@ def call_builtin(ip, st, name, pos, kws, node):
             return []
         if isinstance(v, Ref) and isinstance(st.heap[v.cid], IterCell):
             return [(st, v)]
+        if len(pos) == 1 and isinstance(v, Ref) and not v.path and isinstance(st.heap[v.cid], ObjCell) and not ip.spec_mode:
+            # iter(obj) is type(obj).__iter__(obj): through that method's contract (none: out-of-subset, as before)
+            k = ip.contracts.find_method(st.heap[v.cid].cls, "__iter__")
+            if k is None:
+                raise U("iter() of an instance of %s: no contract for __iter__" % st.heap[v.cid].cls)
+            from .calls import apply_contract
+            return apply_contract(ip, st, k, [v], {})
         if isinstance(v, Ref) and isinstance(st.heap[v.cid], LstCell):
             # iterator over a live list: reads the list as it is at each step
             c = IterCell(None, I(0))
@@ -521,8 +535,11 @@ def call_builtin(ip, st, name, pos, kws, node):
         if len(pos) == 1 and not kws and isinstance(pos[0], Fun) and (pos[0].kind == "dictpairs" or
                                                                      (pos[0].kind == "dictview" and pos[0].name == "items")):
             # dict(<all the items of d>): a new dictionary with the same items
-            from .dicts import dterm
-            return [(st, ip.new_cell(st, ValCell(dterm(ip, st, pos[0].recv))))]
+            from .dicts import dterm, mark_shallow
+            r = ip.new_cell(st, ValCell(dterm(ip, st, pos[0].recv)))
+            if not ip.spec_mode:
+                mark_shallow(st, r, pos[0].recv)
+            return [(st, r)]
         raise U("dict(...)")
     if name == "object":
         return [(st, Sentinel("anon%d" % next(ip.cid)))]
